@@ -21,6 +21,7 @@ type Program struct {
 	byPath       map[string]*ssa.Package
 	sampleModels bool
 	LoadSeconds  float64
+	RepoDir      string
 }
 
 type noIntrinsic struct{}
